@@ -287,6 +287,42 @@ func checkC04Named(e *lib.Node) string {
 	return ""
 }
 
+// checkC04NamedText: a text chain that is continued behind its name.
+func checkC04NamedText(ab, c *lib.Node) string {
+	st := &lib.Stmt{Kind: "select", Fields: []lib.SelField{
+		{E: ab.Clone(), Alias: "c1"},
+		{E: lib.Ref("c1", lib.TyText), Alias: "c2"},
+		{E: lib.Bin("+", lib.Ref("c1", lib.TyText), c.Clone()), Alias: "c3"},
+	}, Where: lib.Bin("!=", lib.Key(), lib.Str("zz"))}
+	q := st.Render()
+	for _, cfg := range []lib.Cfg{{Mode: "row", Batch: 32, Cache: true}, {Mode: "batch", Batch: 3, Cache: true}, {Mode: "row", Batch: 32, Cache: false}} {
+		res := lib.Run(q, lib.NewStore(c04Pairs), len(c04Pairs), cfg)
+		if res.BuildErr != nil {
+			lib.Stats.Label("named-text-chain-rejected")
+			return ""
+		}
+		if res.Failed() {
+			return fmt.Sprintf("query %q [%s]: %s", q, cfg, res.Describe())
+		}
+		if len(res.Rows) != len(c04Pairs) {
+			return fmt.Sprintf("query %q [%s]: %d rows for %d pairs", q, cfg, len(res.Rows), len(c04Pairs))
+		}
+		for i, r := range res.Rows {
+			env := &lib.Env{K: c04Pairs[i].K, V: c04Pairs[i].V}
+			w1, err1 := lib.Eval(ab, env)
+			w3, err3 := lib.Eval(lib.Bin("+", ab, c), env)
+			if err1 != nil || err3 != nil {
+				continue
+			}
+			if !lib.EqualVal(w1, r[0]) || !lib.EqualVal(w1, r[1]) || !lib.EqualVal(w3, r[2]) {
+				return fmt.Sprintf("query %q [%s] on (%q,%q): c1 is %s as written and c3 is %s; the engine shows c1 = %s, c2 (its name) = %s, c3 = %s", q, cfg, c04Pairs[i].K, c04Pairs[i].V, lib.Show(w1), lib.Show(w3), lib.Show(r[0]), lib.Show(r[1]), lib.Show(r[2]))
+			}
+		}
+	}
+	lib.Stats.Label("named-text-chain")
+	return ""
+}
+
 // c04BoundaryLiteral: the value of e on one of the pairs (chosen by n) as a
 // literal, when it is a non-negative number that can be written down.
 func c04BoundaryLiteral(e *lib.Node, n int) *lib.Node {
@@ -460,6 +496,14 @@ func TestC04Bool(t *testing.T) {
 					e = lib.Bin("+", a, lib.Bin("+", b, cN))
 				}
 				c04Run(t, &c04Case{E: e, W: lib.Bin("!=", e, lib.Str("ab")), Pairs: c04Pairs}, true, "text-chain")
+				// round 10: the chain goes on behind a name, `a + b as c1, c1 as
+				// c2, c1 + c as c3` - merging the constants of the two chains
+				// must leave c1 what it was
+				if a.T == lib.TyText && b.T == lib.TyText && cN.T == lib.TyText {
+					if m := checkC04NamedText(lib.Bin("+", a, b), cN); m != "" {
+						fail(t, "C04", "c04", m, &c04Case{E: e, W: c04True(), Pairs: c04Pairs})
+					}
+				}
 			}
 		}
 	}
